@@ -183,7 +183,10 @@ where
 
     // Verify the header checksum if requested
     if let Some(ref expected_checksum) = opts.header_checksum {
-        if *expected_checksum != *archive.header_checksum() {
+        // HashSum compares by common prefix; a pinned checksum must match in full.
+        if expected_checksum.len() != archive.header_checksum().len()
+            || *expected_checksum != *archive.header_checksum()
+        {
             return Err(anyhow!("Header checksum mismatch"));
         } else {
             info!("Header checksum verified OK");
